@@ -99,6 +99,80 @@ class Streams3(Streams):
                 self.disagree("fixup_resize/convert_resize_1x1_to_add", f"kind,align,half,dtype,H,W,C,OH,OW,reshaped,scale,zp={desc}: model '{m}', real '{real}'",
                               {"stream": "resize1x1", "case": desc, "request": rq, "semantic_request": sq}, sm)
 
+    # ---- 16. AVERAGE_POOL with a wide stride ---------------------------------------------------------------
+    def stream_avgpool(self, n):
+        from ethosu.vela import tflite_graph_optimiser as go
+        from ethosu.vela.data_type import DataType
+        from ethosu.vela.operation import Op, Padding, RoundingMode
+        from ethosu.vela.shape4d import Shape4D
+
+        ck, rng = self.ck, self.rng
+        rows = []
+        for i in range(n):
+            is_avg = rng.random() < 0.92
+            kh, kw = rng.choice([(1, 2), (2, 2), (2, 3), (1, 3), (3, 3), (2, 4), (1, 4), (1, 1), (5, 2), (2, 5)])
+            sy = rng.choice([1, 1, 2, 3])
+            sx = rng.choice([1, 2, 3, 4, 4, 4, 5, 6, 8])
+            C = rng.choice([1, 2, 3, 4])
+            oh, ow = rng.randint(1, 3), rng.randint(1, 3)
+            H, W = (oh - 1) * sy + kh + rng.randint(0, sy - 1), (ow - 1) * sx + kw + rng.randint(0, sx - 1)
+            dt = rng.choice([DataType.int8, DataType.uint8])
+            lo, hi = self.qrange(dt)
+            zp = rng.randint(lo, hi)
+            scale = self.rand_scale()
+            ifm = self.tens([1, H, W, C], dt, scale, zp, "ifm")
+            ofm = self.tens([1, oh, ow, C], dt, scale, zp, "ofm")
+            attrs = {"padding": Padding.VALID, "stride_w": sx, "stride_h": sy, "strides": (1, sy, sx, 1), "filter_width": kw, "filter_height": kh,
+                     "ksize": (1, kh, kw, 1)}
+            op = self.testutil.create_op(Op.AvgPool if is_avg else Op.MaxPool, [ifm], ofm, attrs)
+            op.run_on_npu = True
+            reshaped = rng.random() < 0.15
+            if reshaped:      # a RESHAPE behind the pool has been bypassed: the OFM tensor carries the reshaped shape
+                ofm.shape = [1, oh * ow * C]
+            sem = None
+            try:
+                out = go.convert_avg_pool_to_conv2d(op, self.arch, None)
+                if out is op and out.type == Op.Conv2DBias:
+                    wt = out.inputs[1]
+                    wv = np.asarray(wt.values)
+                    q = wt.quantization
+                    fr = fractions.Fraction(float(q.scale_f32))
+                    exact = fr == fractions.Fraction(1.0 / (kh * kw))        # the Python double 1 / (h * w)
+                    a = out.attrs
+                    ok_struct = len(out.inputs) == 2 and out.inputs[0] is ifm and out.outputs[0] is ofm and out.rounding_mode == RoundingMode.AwayZero and \
+                        int(q.zero_point) == 0 and wt.dtype == dt and list(wv.shape) == list(wt.shape) and \
+                        (a["dilation_h_factor"], a["dilation_w_factor"], tuple(a["dilation"])) == (1, 1, (1, 1, 1, 1)) and a["padding"] == Padding.VALID and \
+                        tuple(a["strides"]) == (1, a["stride_h"], a["stride_w"], 1) and out.ofm_shapes[0] == Shape4D([1, oh, ow, C]) and \
+                        out.ifm_shapes[0] == Shape4D([1, H, W, C]) and out.original_type == Op.AvgPool
+                    shp = list(wt.shape)
+                    den = kh * kw if exact else 0
+                    real = f"ok {shp[0]} {shp[1]} {shp[3]} {den} {a['stride_h']} {a['stride_w']}"
+                    if not ok_struct or len(shp) != 4 or shp[2] != shp[3]:
+                        real = "?structure " + real
+                    elif wv.size <= 4000:
+                        sem = (f"rwsem3_avgpool {int(dt == DataType.int8)} {H} {W} {C} {kh} {kw} {sy} {sx} 0 {csv(wv.reshape(-1))} {den} {rng.getrandbits(16)}")
+                elif out is op and out.type == (Op.AvgPool if is_avg else Op.MaxPool) and len(out.inputs) == 1:
+                    real = "none"
+                else:
+                    real = f"?half-converted type={out.type}"
+            except Exception as e:  # noqa: B902
+                real = "raises:" + type(e).__name__ + ":" + str(e)[:50]
+            desc = (is_avg, self.dtname(dt), H, W, C, kh, kw, sy, sx, reshaped)
+            rows.append((desc, f"rw3_avgpool {int(is_avg)} {kh} {kw} {sy} {sx} {C}", real, sem))
+        outs = self.model([r[1] for r in rows])
+        sem_outs = iter(self.model([r[3] for r in rows if r[3] is not None]))
+        for (desc, rq, real, sq), m in zip(rows, outs):
+            self.evaluations += 1
+            sm = next(sem_outs) if sq is not None else "not-rewritten"
+            ck.count("rw3_avgpool_cases")
+            ck.count("rw3_avgpool_" + m.split()[0])
+            if sm.startswith("ok ties="):
+                ck.count("rw3_avgpool_elements_on_a_tie", int(sm.split("=")[1])) if int(sm.split("=")[1]) else None
+            self.nontrivial.add(("avgpool",) + desc)
+            if m != real or sm.startswith("fail") or sm.startswith("err"):
+                self.disagree("convert_avg_pool_to_conv2d", f"is_avg,dtype,H,W,C,kh,kw,sy,sx,reshaped={desc}: model '{m}', real '{real}'",
+                              {"stream": "avgpool", "case": desc, "request": rq, "semantic_request": sq}, sm)
+
     # ---- 17. SHAPE -> constant -------------------------------------------------------------------------
     def stream_shape(self, n):
         from ethosu.vela import tflite_graph_optimiser as go
@@ -223,6 +297,7 @@ class Streams3(Streams):
     def run(self):
         t = self.ck.thorough
         self.stream_resize1x1(1000 if t else 240)
+        self.stream_avgpool(1500 if t else 300)
         self.stream_shape(1500 if t else 300)
         self.stream_unpack(1500 if t else 300)
 
